@@ -27,7 +27,7 @@ ASSUMPTIONS = [
     "(= relative 1e-12 for add; for subtract this is the conditioning-aware form of the same tolerance); inverse "
     "clauses at relative 1e-9; pairs of equal duration are excluded from subtract (a zero duration has no note value)",
     "is_simple is only required to terminate and return (its truth value is not fixed by the statement)",
-    "integer beat units are generated within |d| < 2**53 (exactly representable); larger magnitudes as floats",
+    "integer beat units of any size are generated as ints (exact), and as floats up to 2**1023",
     "termination: more than 10**5 traced line events in one predicate call counts as non-termination",
 ]
 
@@ -272,7 +272,8 @@ def sub_meters_enum(ctx, shard, n):
     units = list(range(-64, 4097))
     if ctx.quick:
         # every unit with a few counts, and every count with the interesting units
-        key_units = [2 ** k for k in range(13)] + [0, -1, -2, -4, -8, 3, 5, 6, 7, 9, 10, 12, 24, 48, 96, 100, 1000, 4095]
+        key_units = [2 ** k for k in range(13)] + [0, -1, -2, -4, -8, 3, 5, 6, 7, 9, 10, 12, 24, 48, 96, 100, 1000, 4095,
+                     2 ** 53, 2 ** 53 + 2, 2 ** 70, 2 ** 70 + 2, 2 ** 100 + 2 ** 40, 2 ** 200]
         cases = [[c, u] for u in units for c in (1, 6, 7)] + [[c, u] for c in COUNTS for u in key_units]
         bound = "units -64..4096 x counts {1,6,7}; counts -10..200 x %d units" % len(key_units)
     else:
@@ -292,7 +293,8 @@ def _unit_strategy():
     fracs = st.tuples(st.integers(-64, 4096), st.sampled_from([0.25, 0.5, 0.75, 0.1, 1e-9, 1.0 / 3])).map(lambda t: t[0] + t[1])
     special = st.sampled_from([0.0, -0.0, 1.0, 2.0, 0.5, 1.5, 2.5, float("inf"), float("-inf"), float("nan"), 2.0 ** 53, 2.0 ** 53 + 2,
                                2.0 ** 1023, 1.7976931348623157e308, 5e-324, -1.0, -2.0, -4.0, 3.0, 6.0])
-    ints = st.integers(-2 ** 53 + 1, 2 ** 53 - 1) | st.integers(0, 52).map(lambda k: 2 ** k)
+    ints = (st.integers(-2 ** 53 + 1, 2 ** 53 - 1) | st.integers(0, 52).map(lambda k: 2 ** k) | st.integers(-2 ** 90, 2 ** 90)
+            | st.integers(53, 300).map(lambda k: 2 ** k) | st.tuples(st.integers(54, 300), st.integers(1, 40)).map(lambda t: 2 ** t[0] + 2 ** t[1]))
     floats = st.floats(allow_nan=True, allow_infinity=True)
     return st.one_of(pow2, near_pow2, halves, fracs, special, ints, floats, st.floats(0, 4096))
 
